@@ -56,12 +56,21 @@ Definition DIAG_deprecated_name := Eval vm_compute in
         if alias_cover_cell (fst p) rep dw then [] else [(fst p, rep, dw)]) [false; true]) [false; true]) deprecated_names)%list.
 Print DIAG_deprecated_name.
 
+(* (name, repeater, dwell, key): a first-level key that is no protocol version / a second-level key
+   that is no regional-parameters revision *)
+Definition DIAG_version_keys := Eval vm_compute in
+  flat_map (fun c =>
+    (map (fun v => (id_of c, v)) (filter (fun v => negb (str_mem v (latest :: protocol_versions))) (skeys (t_maxpl (c_tab c))))
+     ++ map (fun r => (id_of c, r)) (filter (fun r => negb (str_mem r (latest :: reg_param_revisions))) (rev_keys (c_tab c))))%list)
+    band_configs.
+Print DIAG_version_keys.
+
 (* (name, dwell, version, revision, DR) of the repeater configuration *)
 Definition DIAG_repeater_le_non_repeater := Eval vm_compute in
   flat_map (fun cr => flat_map (fun cn =>
     if is_rep_pair cr cn then
       let tr := c_tab cr in let tn := c_tab cn in
-      flat_map (fun v => if version_query_sane v then
+      flat_map (fun v =>
         flat_map (fun r =>
           match select_size_table tr v r with
           | None => []
@@ -71,8 +80,7 @@ Definition DIAG_repeater_le_non_repeater := Eval vm_compute in
                                        | Ok s' => size_le (snd e) s'
                                        | _ => false
                                        end) st)
-          end) (latest :: pair_KR tr tn)
-        else []) (latest :: pair_KV tr tn)
+          end) (latest :: pair_KR tr tn)) (latest :: pair_KV tr tn)
     else []) band_configs) band_configs.
 Print DIAG_repeater_le_non_repeater.
 
